@@ -23,7 +23,7 @@ func init() {
 			"(P11-precedence) the target record's own style is the base of the election, an explicit base value wins over the tally, the tally falls back to the default; explicit --date/--time values are not reformatted, configured preferences reformat explicitly, otherwise auto-style; " +
 			"(P11-determine-first) the indentation is read off the first indented line of the block; (P11-defaults) the default style is LF and four spaces and both are accepted by the parser's tables; (P11-valid = P05-makeresult-guard) the result is always re-parsed. " +
 			"Not covered: that determine() reads the right style values off a record, the majority arithmetic itself.",
-		rules: []ruleFn{ruleP11Det, ruleP11StyleSrc, ruleP11Precedence, ruleP11DetermineFirst, ruleP11Defaults, ruleP05MakeResultGuard},
+		rules: []ruleFn{ruleP11Det, ruleP11StyleSrc, ruleP11Precedence, ruleP11ElectWiring, ruleP11DetermineFirst, ruleP11Defaults, ruleP05MakeResultGuard},
 	})
 }
 
